@@ -1,5 +1,6 @@
 import LekkerVerif.Model.DriverBase
 import LekkerVerif.Model.DriverStack
+import LekkerVerif.Model.DriverParams
 /-! Driver ops.  Each op runs executable definitions of the model on the decoded request. -/
 open Lean
 
@@ -128,6 +129,7 @@ def dispatch (j : Json) : Json :=
   | some "star" => opStar j
   | some "solve" => opSolve j
   | some "stack" => opStack j
+  | some "rename" => opRename j
   | some "ping" => Json.mkObj [("ok", true)]
   | _ => errJson "unknown-op"
 
